@@ -1,5 +1,6 @@
 """C23 - the in-memory Files type is a well-behaved io/fs file system (DESIGN 7/C23)."""
-import json, shutil, rig
+import json, os, random, re, shutil, rig
+from pathlib import Path
 from concurrent.futures import ThreadPoolExecutor
 from rig import Infra
 
@@ -19,6 +20,8 @@ MC_INVS = ["MeetsRef", "PosInRange", "PagesConcatenate", "EachChildOnce", "Bytes
 
 # Defects demonstrated on the unchanged tree (see the report; the integrator fixes files.go or moves these).
 PROPOSED_KNOWN = [
+    {"kind": "known", "signature": {"fam": "filesfs", "cause": "readdir-page-after-all-was-read"},
+     "what": "files.go filesDir.ReadDir(n<=0) does not advance the directory offset: after ReadDir(-1) returned every entry, ReadDir(n>0) returns entries again instead of io.EOF"},
     {"kind": "known", "signature": {"fam": "filesfs", "cause": "entry-mode-of-directory"},
      "what": "files.go filesDir.ReadDir: the DirEntry of an implied subdirectory has mode 0 (IsDir() false, Type() regular) although Stat of the child says directory (entries are built as filesFileInfo{name: name} without mode)"},
     {"kind": "known", "signature": {"fam": "filesfs", "cause": "entry-info-size"},
@@ -33,49 +36,50 @@ FSTEST_COVERS = {"entry-mode-of-directory", "entry-mode-of-file", "entry-info-si
                  "file-not-opened", "directory-not-opened", "read-wrong-bytes", "invalid-name-opened", "stat-name", "stat-mode", "stat-size"}
 
 
+FSTEST_MSG = re.compile(r"mismatch|IsDir\(\)")
+
+
 def mc(ctx, variant, consts, must_pass):
     wd = ctx.stage("mc_" + variant, FAMS)
-    c = dict(consts, Variant=variant)
-    rig.write_cfg(wd / "MC_FilesFS.cfg", constants=c, invariants=MC_INVS)
-    r = ctx.tlc(wd, "MC_FilesFS", workers=max(2, rig.NCPU // 4), timeout=1500, coverage=(not ctx.quick and variant != "as_written"),
-                must_pass=must_pass)
+    rig.write_cfg(wd / "MC_FilesFS.cfg", constants=dict(consts, Variant=variant), invariants=MC_INVS)
+    r = ctx.tlc(wd, "MC_FilesFS", workers=4, timeout=1500, coverage=(not ctx.quick and variant == "fixed"), must_pass=must_pass)
     return wd, r
 
 
-def judge(ctx, step, obs_path, mode="judge"):
+def judge(ctx, step, obs_path, mode="judge", keep=5):
+    """One TLC run of Trace_FilesFS over obs_path; returns (bad records, stats record)."""
     wd = ctx.stage(step, FAMS)
-    shutil.copy(obs_path, wd / "obs.ndjson")
-    rig.write_cfg(wd / "Trace_FilesFS.cfg", constants={"Mode": mode}, invariants=["Done"], postcondition="Consumed")
-    r = ctx.tlc(wd, "Trace_FilesFS", workers=1, timeout=1500)
+    if Path(obs_path).resolve() != (wd / "obs.ndjson").resolve():
+        shutil.copy(obs_path, wd / "obs.ndjson")
+    for f in ("bad.ndjson", "stats.ndjson"):
+        if (wd / f).exists():
+            (wd / f).unlink()
+    rig.write_cfg(wd / "Trace_FilesFS.cfg", constants={"Mode": mode, "KeepPerCause": keep}, invariants=["Done"], postcondition="Consumed")
+    r = ctx.tlc(wd, "Trace_FilesFS", workers=1, timeout=1500, heap="4g")
     if not r.ok or not (wd / "bad.ndjson").exists() or not (wd / "stats.ndjson").exists():
         raise Infra(f"Trace_FilesFS ({mode}) did not complete cleanly: {wd}/Trace_FilesFS.out\n" + rig.tail(r.out, 25))
     return rig.read_ndjson(wd / "bad.ndjson"), rig.read_ndjson(wd / "stats.ndjson")[0]
 
 
-def judge_sharded(ctx, step, allobs, nshards, mode="judge"):
-    """Judge allobs in nshards parallel TLC processes; returns (bads with 'obs' attached, merged stats)."""
-    n = len(allobs)
-    size = max(1, (n + nshards - 1) // nshards)
-    parts = [allobs[k:k + size] for k in range(0, max(n, 1), size)]
+def judge_lines(ctx, step, lines, mode="judge", keep=5):
+    """lines: raw ndjson lines of observations.  Bad records get the parsed observation attached."""
+    wd = ctx.stage(step, FAMS)
+    (wd / "obs.ndjson").write_text("".join(lines))
+    b, st = judge(ctx, step, wd / "obs.ndjson", mode, keep)
+    for x in b:
+        x["obs"] = json.loads(lines[x["k"] - 1])
+    return b, st
 
-    def one(i):
-        p = ctx.work / f"{step}_obs_{i}.ndjson"
-        rig.write_ndjson(p, parts[i])
-        b, st = judge(ctx, f"{step}_{i}", p, mode)
-        for x in b:
-            x["obs"] = parts[i][x["k"] - 1]
-        return b, st
-    with ThreadPoolExecutor(max_workers=nshards) as ex:
-        results = list(ex.map(one, range(len(parts))))
-    bads, stats = [], {"n": 0, "nbad": 0, "ref_undefined": 0, "causes": {}}
-    for b, st in results:
-        bads += b
-        stats["n"] += st["n"]
-        stats["nbad"] += st["nbad"]
-        stats["ref_undefined"] += st["ref_undefined"]
+
+def merge_stats(sts):
+    out = {"n": 0, "nbad": 0, "ref_undefined": 0, "causes": {}}
+    for st in sts:
+        out["n"] += st["n"]
+        out["nbad"] += st["nbad"]
+        out["ref_undefined"] += st["ref_undefined"]
         for c in st["causes"]:
-            stats["causes"][c["cause"]] = stats["causes"].get(c["cause"], 0) + c["count"]
-    return bads, stats
+            out["causes"][c["cause"]] = out["causes"].get(c["cause"], 0) + c["count"]
+    return out
 
 
 def show(o):
@@ -103,60 +107,62 @@ def nontrivial(o):
     return any(r.get("data") or r.get("ents") for r in o["res"])
 
 
-def corruptions(ctx, allobs, seed):
-    """Sensitivity self-test inputs: observations that the real code produced and the judge ACCEPTS (checked by a
-    first TLC pass over the candidates), each with one logged fact falsified."""
-    cands = {
-        "ents": [o for o in allobs if any(r["op"] == "readdir" and len(r["ents"]) >= 2 for r in o["res"])],
-        "data": [o for o in allobs if any(r["op"] == "read" and r["data"] for r in o["res"])],
-        "stat": [o for o in allobs if any(r["op"] == "stat" and r["err"] == "nil" for r in o["res"])],
-        "missing": [o for o in allobs if o["open"]["err"] == "notexist"],
-    }
-    pool = {k: rig.pick_samples(v, 40, seed + i) for i, (k, v) in enumerate(sorted(cands.items()))}
-    flat = {o["id"]: o for v in pool.values() for o in v}
-    if not flat:
-        return []
-    b0, _ = judge(ctx, "trace_selftest_pre", write_tmp(ctx, "selftest_pre.ndjson", list(flat.values())))
-    # the judge keeps only a few bad records per cause, so re-judge until the survivors are all accepted
-    rejected = {b["id"] for b in b0}
-    while b0:
-        flat = {i: o for i, o in flat.items() if i not in rejected}
-        if not flat:
-            return []
-        b0, _ = judge(ctx, "trace_selftest_pre", write_tmp(ctx, "selftest_pre.ndjson", list(flat.values())))
-        rejected |= {b["id"] for b in b0}
-    acc = {k: [o for o in v if o["id"] in flat] for k, v in pool.items()}
+
+def is_nontrivial_line(line):
+    # a Read returned bytes or a ReadDir returned entries (evidence counting only)
+    return '"ents":[{' in line or NONEMPTY_DATA.search(line) is not None
+
+
+NONEMPTY_DATA = re.compile(r'"data":\[\d')
+ID_FIELD = re.compile(r'"id":\d+,')
+
+
+def corruptions(cands, accepted_ids):
+    """Sensitivity self-test inputs: real observations, each with one logged fact falsified, paired with the causes
+    the judge must report.  The falsified step is the FIRST step of the sequence (so nothing before it can be the
+    reason of the rejection) or the observation was accepted by the judge before the corruption."""
+    acc = [o for o in cands if o["id"] in accepted_ids and all(r["op"] != "close" for r in o["res"])]
+    first_ents = [o for o in cands if o["res"] and o["res"][0]["op"] == "readdir" and len(o["res"][0]["ents"]) >= 2]
+    data = [o for o in acc if any(r["op"] == "read" and r["data"] for r in o["res"])]
+    stat = [o for o in acc if any(r["op"] == "stat" and r["err"] == "nil" for r in o["res"])]
+    missing = [o for o in acc if o["open"]["err"] == "notexist"]
     out = []
 
     def clone(o, i):
         c = json.loads(json.dumps(o))
         c["id"] = 900000 + i
         return c
-    if acc["ents"]:
-        o = clone(acc["ents"][0], 1)                                  # swap two entries: not sorted
-        r = next(r for r in o["res"] if r["op"] == "readdir" and len(r["ents"]) >= 2)
+    if first_ents:
+        o = clone(first_ents[0], 1)                                   # swap two entries: not sorted
+        r = o["res"][0]
         r["ents"][0], r["ents"][1] = r["ents"][1], r["ents"][0]
-        out.append(o)
-        o = clone(acc["ents"][-1], 2)                                 # an entry is lost between two calls
-        k = next(k for k, r in enumerate(o["res"]) if r["op"] == "readdir" and len(r["ents"]) >= 2)
-        o["res"] = o["res"][:k + 1]
-        o["res"][k]["ents"].pop()
-        o["res"].append(dict(json.loads(json.dumps(o["res"][k])), n=-1, ents=[], err="nil"))
-        out.append(o)
-    if acc["data"]:
-        o = clone(acc["data"][0], 3)                                  # flip a byte read
+        out.append((o, {"readdir-all-not-sorted", "readdir-page-not-sorted"}))
+        o = clone(first_ents[-1], 2)                                  # the same child listed twice
+        r = o["res"][0]
+        r["ents"][1] = json.loads(json.dumps(r["ents"][0]))
+        out.append((o, {"readdir-all-wrong-entries", "readdir-page-wrong-entries"}))
+        o = clone(first_ents[len(first_ents) // 2], 3)                # a page longer than asked / an entry dropped
+        r = o["res"][0]
+        if r["n"] > 0:
+            r["n"] = len(r["ents"]) - 1
+            out.append((o, {"readdir-more-than-n"}))
+        else:
+            r["ents"].pop()
+            out.append((o, {"readdir-all-wrong-entries"}))
+    if data:
+        o = clone(data[0], 4)                                         # flip a byte read
         r = next(r for r in o["res"] if r["op"] == "read" and r["data"])
         r["data"][0] ^= 1
-        out.append(o)
-    if acc["stat"]:
-        o = clone(acc["stat"][0], 4)                                  # flip the directory bit of a Stat
+        out.append((o, {"read-wrong-bytes"}))
+    if stat:
+        o = clone(stat[0], 5)                                         # flip the directory bit of a Stat
         r = next(r for r in o["res"] if r["op"] == "stat" and r["err"] == "nil")
         r["info"]["isdir"] = 1 - r["info"]["isdir"]
-        out.append(o)
-    if acc["missing"]:
-        o = clone(acc["missing"][0], 5)                               # a missing name opens
+        out.append((o, {"stat-mode"}))
+    if missing:
+        o = clone(missing[0], 6)                                      # a missing / invalid name opens
         o["open"]["err"] = "nil"
-        out.append(o)
+        out.append((o, {"missing-name-opened", "invalid-name-opened"}))
     return out
 
 
@@ -184,6 +190,8 @@ def fstest_guard(ctx, confirmed):
             kept.append(b)
         elif v["fstest"] == "fail":
             s["fstest_flags_tree"] += 1
+            if FSTEST_MSG.search(v["msg"]) and c.startswith("entry-"):
+                s["fstest_reports_entry_mismatch"] = s.get("fstest_reports_entry_mismatch", 0) + 1
             b["fstest"] = v["msg"][:300]
             kept.append(b)
         else:
@@ -195,53 +203,60 @@ def fstest_guard(ctx, confirmed):
     return kept
 
 
+
 def run(ctx, replay_case=None):
-    consts = {"Large": not ctx.quick, "MaxFiles": ctx.pick(3, 4), "MaxOps": ctx.pick(3, 4)}
-    # 1. model check: the reference machine itself (+ export), the repaired transcription, the transcription as written
-    if replay_case is not None:
-        return run_cases(ctx, consts, ctx.work / "cases.ndjson", replay_case)
-    wd, r = mc(ctx, "ref", consts, must_pass=True)
-    ctx.cov.update(states=r.distinct, transitions=r.generated, mc_wall_s=round(r.wall, 1), mc_invariants=MC_INVS,
-                   bounds=str(consts) + "; handle state explored to a fix-point (operation sequences of any length); cases exported up to MaxOps operations")
-    if not ctx.quick:
-        ctx.cov["actions_never_taken"] = r.coverage_zero()
-    cases = wd / "cases.ndjson"
-    if not cases.exists():
-        raise Infra("MC_FilesFS exported no cases.ndjson")
-    if replay_case is None:
-        _, rf = mc(ctx, "fixed", consts, must_pass=True)
-        _, rw = mc(ctx, "as_written", consts, must_pass=False)
-        ctx.cov["mc_fixed_model"] = {"states": rf.distinct, "meets_reference": True}
-        if rw.ok:
-            ctx.cov["mc_as_written_model"] = {"states": rw.distinct, "meets_reference": True}
-        elif rw.invariant_violated:
-            ctx.cov["mc_as_written_model"] = {"meets_reference": False, "invariants": rw.invariant_violated}
-            ctx.cov["model_counterexample"] = {"invariants": rw.invariant_violated, "model": "files.go as written",
-                                               "tlc_out": str(ctx.work / "mc_as_written" / "MC_FilesFS.out")}
-        else:
-            raise Infra("MC_FilesFS (as_written) failed: " + rig.tail(rw.out, 25))
-    return run_cases(ctx, consts, cases, None)
-
-
-def run_cases(ctx, consts, cases, replay_case):
-    # 2. replay into the real code
-    extra = ctx.pick(3000, 60000)
-    if replay_case is not None:
-        rig.write_ndjson(cases, [replay_case])
-        extra = 0
+    consts = {"Large": not ctx.quick, "MaxFiles": ctx.pick(3, 4), "FullOps": 2, "MaxOps": ctx.pick(3, 4), "DeepOps": ctx.pick(3, 5)}
+    # several TLC processes run side by side: keep each JVM's collector small (inherited by ctx.tlc's subprocess)
+    os.environ["JAVA_TOOL_OPTIONS"] = "-XX:ParallelGCThreads=2 -XX:CICompilerCount=2"
+    pool = ThreadPoolExecutor(max_workers=ctx.pick(8, 12))
     obs = ctx.work / "obs.ndjson"
-    ctx.drive("c23", cases, obs, args=["-extra", str(extra)])
-    allobs = rig.read_ndjson(obs)
-    ctx.cov.update(evaluations=len(allobs), traces_validated_against_impl=len(allobs),
-                   operations_judged=sum(len(o["res"]) for o in allobs),
-                   distinct_nontrivial=len({json.dumps([o["files"], o["name"], o["res"]], sort_keys=True) for o in allobs if nontrivial(o)}),
-                   rule="every tree x probe name x operation sequence exported by TLC (exhaustive within the bounds) plus seeded random trees (depth <=3, dotted/Unicode names, empty files) with up to 8 operations; non-trivial = a Read returned bytes or a ReadDir returned entries",
-                   exhaustive=True, samples=[show(o) for o in rig.pick_samples([o for o in allobs if nontrivial(o)] or allobs, 3, ctx.seed)])
-    # 3. judge
-    nsh = 1 if len(allobs) < 20000 else ctx.pick(6, 10)
-    bads, stats = judge_sharded(ctx, "trace", allobs, nsh)
+    bg = {}
+    if replay_case is not None:
+        cases = ctx.work / "cases.ndjson"
+        rig.write_ndjson(cases, [replay_case])
+        ctx.drive("c23", cases, obs)
+    else:
+        # 1. model check: the reference machine itself (+ case export); in the background the transcription of
+        #    files.go as written (diagnostic) and with the proposed repair (must meet the reference)
+        ctx.build_driver("c23")
+        wd, r = mc(ctx, "ref", consts, must_pass=True)
+        bg["fixed"] = pool.submit(mc, ctx, "fixed", consts, True)
+        bg["as_written"] = pool.submit(mc, ctx, "as_written", consts, False)
+        ctx.cov.update(states=r.distinct, transitions=r.generated, mc_wall_s=round(r.wall, 1), mc_invariants=MC_INVS,
+                       bounds=str(consts) + "; MC: handle state explored to a fix-point (operation sequences of any length); replay: all sequences of <= FullOps operations, <= MaxOps state-changing operations (ReadDir(-1|1|2)/Read(1|2)/Close), <= DeepOps paging operations")
+        cases = wd / "cases.ndjson"
+        if not cases.exists():
+            raise Infra("MC_FilesFS exported no cases.ndjson")
+        # 2. replay into the real code
+        ctx.drive("c23", cases, obs, args=["-extra", str(ctx.pick(2000, 40000))])
+    # 3. judge (sharded, parallel TLC processes); python only counts and splits lines
+    lines = obs.read_text().splitlines(keepends=True)
+    n = len(lines)
+    nontriv = {ID_FIELD.sub("", ln) for ln in lines if is_nontrivial_line(ln)}
+    rnd = random.Random(ctx.seed)
+    ctx.cov.update(evaluations=n, traces_validated_against_impl=n, distinct_nontrivial=len(nontriv),
+                   operations_judged=sum(ln.count('"op":') for ln in lines),
+                   rule="every tree x probe name x operation sequence exported by TLC (exhaustive within the bounds) plus seeded random trees (depth <=3, dotted/Unicode names, empty files, <=6 files) with up to 8 operations; non-trivial = a Read returned bytes or a ReadDir returned entries",
+                   exhaustive=True)
+    del nontriv
+    nsh = max(1, min(ctx.pick(6, 10), n // 6000))
+    size = max(1, (n + nsh - 1) // nsh)
+    futs = [pool.submit(judge_lines, ctx, f"trace_{i}", lines[k:k + size]) for i, k in enumerate(range(0, max(n, 1), size))]
+    det = [ln for ln in lines if obs_id(ln) < 1000000000]      # the cases exported by TLC (not the seeded random ones)
+    if replay_case is None:
+        # model drift (diagnostic): which transcription of files.go predicts the observations (sample of exported cases)
+        sample = rnd.sample(det, min(len(det), ctx.pick(1500, 20000)))
+        dfut = pool.submit(judge_lines, ctx, "drift", sample, "drift")
+        # candidates for the sensitivity self-test (judged first: only accepted observations are corrupted)
+        cand = rnd.sample(det, min(len(det), 600))
+        cfut = pool.submit(judge_all_accepted, ctx, cand)
+    results = [f.result() for f in futs]
+    bads = [b for bs, _ in results for b in bs]
+    stats = merge_stats([st for _, st in results])
     ctx.cov.update(judged_bad_first_pass=stats["nbad"], ref_undefined=stats["ref_undefined"], rejected_by_cause=stats["causes"])
-    # 4. reproduction guard (fresh process), then oracle guard
+    sm = [json.loads(ln) for ln in rnd.sample(lines, min(n, 400))]
+    ctx.cov["samples"] = [show(o) for o in rig.pick_samples([o for o in sm if nontrivial(o)] or sm, 3, ctx.seed)]
+    # 4. reproduction guard (fresh process), then oracle guard (fstest, violation path only)
     confirmed = []
     if bads:
         byid = {}
@@ -250,37 +265,59 @@ def run_cases(ctx, consts, cases, replay_case):
         cc, co = ctx.work / "confirm_cases.ndjson", ctx.work / "confirm_obs.ndjson"
         rig.write_ndjson(cc, list(byid.values()))
         ctx.drive("c23", cc, co)
-        b2, _ = judge(ctx, "trace_confirm", co)
+        b2, _ = judge(ctx, "trace_confirm", co, keep=1000000)
         again = {(b["id"], b["sig"]["cause"]) for b in b2}
         confirmed = [b for b in bads if (b["id"], b["sig"]["cause"]) in again]
         ctx.cov["unreproduced"] = len(bads) - len(confirmed)
         confirmed = fstest_guard(ctx, confirmed)
         for b in confirmed:
             b["what"] = json.dumps(show(b["obs"]), ensure_ascii=False)
-    # 5. model drift (diagnostic): which transcription predicts the observations (sample of the exported cases)
     if replay_case is None:
-        det = [o for o in allobs if o["id"] < 1000000]
-        sample = rig.pick_samples(det, ctx.pick(4000, 20000), ctx.seed)
-        drift = {}
-        for variant in ("as_written", "fixed"):
-            _, st = judge(ctx, "drift_" + variant, write_tmp(ctx, "drift_obs.ndjson", sample), mode=variant)
-            drift[variant] = st["nbad"]
-        ctx.cov["model_drift"] = {"sampled": len(sample), "mismatch_as_written_model": drift["as_written"], "mismatch_fixed_model": drift["fixed"]}
-    # 6. sensitivity self-test: falsified copies of accepted observations must be rejected
-    st = corruptions(ctx, allobs, ctx.seed) if replay_case is None else []
-    if replay_case is None:
-        if not st:
-            raise Infra("sensitivity self-test: no accepted observation to corrupt")
-        b3, _ = judge(ctx, "trace_selftest", write_tmp(ctx, "selftest_obs.ndjson", st))
-        rej = {b["id"] for b in b3}
-        ctx.cov["sensitivity_selftest"] = {"corrupted": len(st), "rejected": len(rej), "causes": sorted({b["sig"]["cause"] for b in b3})}
-        if len(rej) < len(st):
-            raise Infra(f"sensitivity self-test failed: {len(st)} corrupted observations, only {len(rej)} rejected")
+        dc = {c["cause"]: c["count"] for c in dfut.result()[1]["causes"]}
+        ctx.cov["model_drift"] = {"sampled": len(sample),
+                                  "mismatch_with_model_of_files_go_as_written": dc.get("drift-both", 0) + dc.get("drift-as_written", 0),
+                                  "mismatch_with_model_of_proposed_fix": dc.get("drift-both", 0) + dc.get("drift-fixed", 0)}
+        # 5. sensitivity self-test: falsified copies of accepted observations must be rejected
+        st = corruptions([json.loads(ln) for ln in cand], cfut.result())
+        if len(st) < 4:
+            raise Infra("sensitivity self-test: too few observations to corrupt")
+        b3, _ = judge(ctx, "trace_selftest", write_tmp(ctx, "selftest_obs.ndjson", [o for o, _ in st]), keep=1000000)
+        got = {b["id"]: b["sig"]["cause"] for b in b3}
+        hit = [o["id"] for o, want in st if got.get(o["id"]) in want]
+        ctx.cov["sensitivity_selftest"] = {"corrupted": len(st), "rejected": len(hit), "causes": sorted(set(got.values()))}
+        if len(hit) < len(st):
+            raise Infra(f"sensitivity self-test failed: {len(st)} corrupted observations, {len(hit)} rejected for the expected reason: {got}")
+        # 6. background model checks
+        _, rf = bg["fixed"].result()
+        _, rw_ = bg["as_written"].result()
+        ctx.cov["mc_model_of_proposed_fix"] = {"states": rf.distinct, "meets_reference": True}
+        if not ctx.quick:
+            ctx.cov["actions_never_taken"] = rf.coverage_zero()
+        if rw_.ok:
+            ctx.cov["mc_model_of_files_go_as_written"] = {"states": rw_.distinct, "meets_reference": True}
+        elif rw_.invariant_violated:
+            ctx.cov["mc_model_of_files_go_as_written"] = {"meets_reference": False, "invariants": rw_.invariant_violated}
+            ctx.cov["model_counterexample"] = {"invariants": rw_.invariant_violated, "model": "files.go as written (diagnostic only)",
+                                               "tlc_out": str(ctx.work / "mc_as_written" / "MC_FilesFS.out")}
+        else:
+            raise Infra("MC_FilesFS (as_written) failed: " + rig.tail(rw_.out, 25))
+    pool.shutdown(wait=True)
 
     def rw(rdir, b):
         (rdir / "case.json").write_text(json.dumps(case_of(b["obs"])))
         (rdir / "obs.json").write_text(json.dumps(b["obs"]))
     return ctx.report(confirmed, replay_writer=rw)
+
+
+def judge_all_accepted(ctx, cand_lines):
+    """The ids of the observations among cand_lines that the judge accepts."""
+    b, _ = judge_lines(ctx, "trace_selftest_pre", cand_lines, keep=1000000)
+    dead = {x["k"] - 1 for x in b}
+    return {obs_id(ln) for i, ln in enumerate(cand_lines) if i not in dead}
+
+
+def obs_id(line):
+    return int(ID_FIELD.search(line).group(0)[5:-1])
 
 
 def write_tmp(ctx, name, recs):
